@@ -197,6 +197,84 @@ def driver_path(component):
     return os.path.join(LEAN, ".lake", "build", "bin", "driver-" + component)
 
 
+# ----------------------------------------------------------------------------- reference facts
+# lean/ref/*.ref are the extracted facts the committed theorems were checked against (the "proven model").
+# When an edit of /repo changes a fact and a theorem stops checking, the search for a failing input must
+# compare the implementation with the model the theorems are ABOUT - the one built from the reference
+# facts - not with a model rebuilt from facts no theorem covers (that comparison produced bogus "failing
+# inputs" on behaviour-preserving rewrites that merely moved a statement out of an extractor's sight).
+GEN_FILES = ["Consts.lean", "Structure.lean"]
+
+
+def _gen_path(n):
+    return os.path.join(LEAN, "JsonC", "Generated", n)
+
+
+def _ref_path(n):
+    return os.path.join(LEAN, "ref", n + ".ref")
+
+
+def facts_changed():
+    """[(file, [changed lines...])] where the regenerated facts differ from the reference facts."""
+    out = []
+    for n in GEN_FILES:
+        try:
+            cur, ref = open(_gen_path(n)).read().split("\n"), open(_ref_path(n)).read().split("\n")
+        except OSError:
+            continue
+        if cur != ref:
+            cs, rs = set(cur), set(ref)
+            out.append((n, ["- " + l for l in ref if l not in cs][:40] + ["+ " + l for l in cur if l not in rs][:40]))
+    return out
+
+
+def _ref_exe(component):
+    srcs = [_ref_path(n) for n in GEN_FILES] + glob.glob(os.path.join(LEAN, "JsonC", "Model", "*.lean")) + \
+        glob.glob(os.path.join(LEAN, "JsonC", "Spec", "*.lean")) + glob.glob(os.path.join(LEAN, "JsonC", "Libc", "*.lean")) + \
+        glob.glob(os.path.join(LEAN, "JsonC", "Base", "*.lean")) + glob.glob(os.path.join(LEAN, "Driver", "*.lean"))
+    return os.path.join(BUILD, "refdrivers", "driver-%s-%s" % (component, file_hash(srcs)))
+
+
+def ref_driver(component):
+    """Path of the driver built from the reference facts (built on demand, cached by content)."""
+    exe = _ref_exe(component)
+    if os.path.exists(exe):
+        return exe
+    os.makedirs(os.path.dirname(exe), exist_ok=True)
+    with flock("lake"):
+        saved = {}
+        for n in GEN_FILES:
+            try:
+                saved[n] = open(_gen_path(n)).read()
+            except OSError:
+                saved[n] = None
+        try:
+            for n in GEN_FILES:
+                write_if_changed(_gen_path(n), open(_ref_path(n)).read())
+            r = sh(["lake", "build", "driver-" + component], cwd=LEAN, timeout=3000)
+            if r.returncode != 0:
+                raise BuildError("driver does not build from the reference facts:\n" + r.stdout[-2000:])
+            shutil.copy2(driver_path(component), exe + ".tmp")
+            os.replace(exe + ".tmp", exe)
+        finally:
+            for n in GEN_FILES:
+                if saved[n] is not None:
+                    write_if_changed(_gen_path(n), saved[n])
+    return exe
+
+
+def cache_ref_driver(component):
+    """On a tree whose facts equal the reference facts the freshly built driver IS the reference driver: keep a copy,
+    so that a later run on an edited tree need not rebuild it."""
+    if facts_changed() or not os.path.exists(driver_path(component)):
+        return
+    exe = _ref_exe(component)
+    if not os.path.exists(exe):
+        os.makedirs(os.path.dirname(exe), exist_ok=True)
+        shutil.copy2(driver_path(component), exe + ".tmp")
+        os.replace(exe + ".tmp", exe)
+
+
 FORBIDDEN = re.compile(r"\b(sorry|admit|native_decide|bv_decide|implemented_by|unsafe)\b|^\s*axiom\s|maxHeartbeats\s+0\b")
 
 
